@@ -15,7 +15,16 @@ Variable round trips are checked whenever the geometry's frame and the variable'
 - NODE variables - from ANY such frame, or - ELEMENT_NODAL variables - whenever `en_valid(variable frame, geometry frame)`
 holds (distinct (element, node) pairs that are those of whole elements of the geometry, in any row order); the variable's
 frame need not be the frame the geometry was exported from.  An injected-failure trial needs the exporter to keep its path in `_file_name`; if it no longer
-does, the trial is skipped silently (no count)."""
+does, the trial is skipped silently (no count).
+Three flags of a call never reach the model, which answers as for the plain call, and the code must agree: `ids_as_columns`
+(NODE variable from a frame that carries node_id / element_id as columns), `extra_level` of a frame (an ELEMENT_NODAL variable
+frame with one more index level) and `forget_cache` (the exporter's remembered connectivity `_connectivity` is cleared before
+the call, so that it reads the file).  Every set container, also the object-dtype kinds objindex / objarray / objseries, reaches
+the model as the list of its ids.  Three scenarios (`op: other`, calls `badmesh`, `collapsed`, `timing`) are oracle only: `badmesh` -
+add_variable with something that is no mesh frame must raise the exporter's own error and leave the file as it was;
+`collapsed` - a geometry with a node repeated in an element's connectivity, judged on a file of its own only; `timing` -
+one corpus case only (corpus/C20/timing-element-nodal.json, not generated): an ELEMENT_NODAL export in stored order at most
+4 x a NODE export of the same frame + 10 ms; the threshold is machine dependent (/repo a06569b)."""
 import copy
 import json
 import os
@@ -46,16 +55,18 @@ ELEMENT_TYPES = {(2, 3): 0, (2, 6): 1, (2, 4): 2, (2, 8): 3, (3, 4): 4, (3, 10):
 INT32_MIN, INT32_MAX = -2 ** 31, 2 ** 31 - 1
 NAN = float("nan")
 
-# the FOUR finding classes tied to an input mechanism (see `mechanism_from`).  All were open known findings at some time; all
+# SEVEN finding classes are tied to an input mechanism (see `mechanism_from`): the four below and K_IDCOL, K_OBJSET, K_LEVEL
+# further down (through `special_class`).  All were open known findings at some time; all
 # are fixed in /repo (id-overflow-int32: 0e66e4b, sticky-dimension: ba72c38, set-container: 1c1257e - a regression of
-# 0e66e4b -, element-nodal-row-order: 57828f0 - a leftover of c3a1079), so `mechanism_from` is called with an empty set of
+# 0e66e4b -, element-nodal-row-order: 57828f0 - a leftover of c3a1079, node-id-column / set-object-dtype / extra-index-level:
+# a06569b), so `mechanism_from` is called with an empty set of
 # classes and is inert - a hit of any of them is reported as a violation.
 K_OVERFLOW = "id-overflow-int32"
 K_STICKY = "sticky-dimension"
 K_ROWORDER = "element-nodal-row-order"
 K_CONTAINER = "set-container"
 BAD_CONTAINERS = ("set", "frozenset", "dict_keys", "generator")     # refused by 0e66e4b's _check_int32
-# regressions of 1c1257e / 57828f0 (review fixreview-d-vmap), repaired by tools/fixes/C20-6-variable-checks.diff
+# regressions / leftovers of 1c1257e / 57828f0 (review fixreview-d-vmap), repaired by /repo commit a06569b
 K_IDCOL = "node-id-column"                  # NODE variable from a frame that carries node_id as a column
 K_OBJSET = "set-object-dtype"               # set members in an object-dtype Index / array / Series
 K_BADMESH = "unusable-mesh-exception"       # add_variable(mesh=5 / frame without ids) raises a raw AttributeError / KeyError
@@ -616,7 +627,11 @@ def mechanism_from(case, classes):
                         the frame the geometry was exported from;
     sticky-dimension  - add_geometry of a frame whose own dimension is not 3 (i.e. 2, or None = z differs between the
                         rows of a node) after an add_geometry (whatever its outcome) of a frame whose own dimension
-                        is not 2 (i.e. 3 or None): `own_dim(...) == None` counts on both sides.
+                        is not 2 (i.e. 3 or None): `own_dim(...) == None` counts on both sides;
+    through `special_class` (all three fixed by /repo a06569b):
+    node-id-column    - add_variable(NODE) with `ids_as_columns` (node_id / element_id as columns of the frame);
+    set-object-dtype  - add_node_set / add_element_set with the ids in an object-dtype Index / array / Series;
+    extra-index-level - add_variable(ELEMENT_NODAL) with a frame that has an additional index level (`extra_level`).
     (`Run.export_op` assigns the class sticky-dimension more narrowly: only to a frame whose own dimension IS 2 (`d == 2`) after
     a frame whose own dimension is not 2; here the test is `d != 3`, so a frame with `own_dim(...) == None` that follows a 3D /
     None frame stops the comparison here but would not get the class there.  The two places do not agree on `None`; the logic is
@@ -1599,9 +1614,11 @@ def tiny_cases():
     in one geometry, with a nodal and an element nodal variable, a second ELEMENT_NODAL variable `EN2` taken from a second
     frame (the same mesh rows sorted by (element, node) as `DataFrame.sort_index()` leaves them, other values), a node set
     and an element set whose ids are handed over in container kinds that rotate through CONTAINERS with the pair number
-    (index, list, tuple, set, frozenset, dict keys, generator, range, Series, ndarray, int32 / float arrays); contiguous
+    (index, list, tuple, set, frozenset, dict keys, generator, range, Series, ndarray, int32 / float arrays, object-dtype
+    Index / array / Series); the nodal variable `N` of every third pair is exported with `ids_as_columns`, the second frame of
+    every other pair carries `extra_level`; contiguous
     and interleaved rows; coordinates that are not binary32 values; for 3D once with an ordinary z range and once as
-    a thin layer far from the z origin; every exporter call once more with a storage failure injected."""
+    a thin layer far from the z origin; every exporter call except the one of `EN2` once more with a storage failure injected."""
     out = []
     for dim in (2, 3):
         counts = NODE_COUNTS[dim]
@@ -1741,7 +1758,11 @@ class C20(Prop):
         "stored (element, node) pair in the variable's frame, -1 = absent; the elements of the geometry that occur in the frame, in "
         "stored order), DataFrame.merge / join by key (left order "
         "kept; a frame with distinct (element, node) pairs has no duplicate keys) are modelled by list functions; the "
-        "correspondence check compares them with the real calls on this run's inputs",
+        "correspondence check compares them with the real calls on this run's inputs.  NOT modelled (added by /repo a06569b): the "
+        "connectivity the exporter remembers per geometry (`_connectivity`, read from the file when absent) with its shortcut for a frame "
+        "already in stored order, groupby(['e', 'n']).cumcount to tell the occurrences of a repeated (element, node) pair apart "
+        "(collapsed elements) and groupby('node_id', dropna=False) in the NODE branch; the flag `forget_cache` and the oracle's "
+        "`collapsed` scenario exercise them on the real code only",
         "valid mesh frame (the oracle's `frame_valid` / `valid_call`) = non-empty, distinct (element_id, node_id) pairs, "
         "columns x and y present and of a numeric dtype, ids within int32; its dimension is judged from the frame alone (3 iff "
         "a z column is not constant).  The guard `ValidMesh` of the Lean success theorems is weaker: ids within int32, "
@@ -1752,12 +1773,14 @@ class C20(Prop):
         "roundtrip_element_nodal_variable still carries the hypothesis but its proof does not use it",
         "an add_variable that fails AFTER its argument checks (variable exists already, an ELEMENT_NODAL frame that is not made of whole "
         "elements of the geometry, a storage failure) may leave the (empty) state / geometry groups it created under /VMAP/VARIABLES; "
-        "they hold no variable, are not compared and not reported.  A call refused by the argument checks (unknown geometry, no column "
+        "they hold no variable, are not compared and not reported.  This describes the MODEL; since /repo a06569b the code collects and "
+        "checks what it is going to write BEFORE it creates a group, so in the code only a storage failure can still leave new empty groups.  A call refused by the argument checks (unknown geometry, no column "
         "names / location, ids outside int32) creates nothing (theorem refused_addVariable_creates_nothing)",
         "outside the model, judged by the oracle on files of their own: a mesh with a collapsed element (a node repeated in "
         "an element's connectivity; the keys are not distinct, pyLife's importer multiplies such rows) - MYVALUES must follow "
         "the stored connectivity; add_variable with something that is no mesh frame must raise VMAPExportError; a timing clause "
-        "(an ELEMENT_NODAL export in stored order costs at most 4 x a NODE export of the same 1e5-row frame + 10 ms); the "
+        "(an ELEMENT_NODAL export in stored order costs at most 4 x a NODE export of the same 1e5-row frame + 10 ms; it runs in ONE corpus "
+        "case only, timing-element-nodal, is not generated, and its threshold is machine dependent: measured ratio 0.6 - 0.7 here); the "
         "exporter's in-memory note of the connectivity it wrote is cleared before some calls (it then reads the file)",
         "not compared with the model (incidental): exception classes, the order and multiplicity of set members in the "
         "file, the row order of a nodal variable's datasets; names with '/' (HDF5 paths) and re-opening an existing file "
@@ -1896,10 +1919,12 @@ class C20(Prop):
         a = model_out[0].split("|") if model_out else []
         b = impl_out[0].split("|") if impl_out else []
         # The model describes the repaired code (the eight /repo commits 5bedc75, 810bb8c, c3a1079, 6fd00f9, ba72c38, 0e66e4b,
-        # 1c1257e, 57828f0; c4385c5 - import refuses malformed coordinates - has no model counterpart).  If one of the four
+        # 1c1257e, 57828f0; c4385c5 - import refuses malformed coordinates - has no model counterpart; a06569b - add_variable
+        # checks what it is going to write - changed no model function: the inputs it repaired reach the model as the plain
+        # call).  If one of the seven
         # mechanism classes were an OPEN known finding again, the segments from the first call on which that defect's
         # input mechanism acts would be the oracle's business (it reports the finding class) and model and code would have to
-        # agree only up to that call.  All four classes are fixed: the set below is empty, `stop` is None, every segment is compared.
+        # agree only up to that call.  All seven classes are fixed: the set below is empty, `stop` is None, every segment is compared.
         stop = mechanism_from(case, self._open_classes() & {K_OVERFLOW, K_STICKY, K_ROWORDER, K_CONTAINER, K_IDCOL, K_OBJSET, K_LEVEL})
         if stop is not None:
             a, b = a[:stop], b[:stop]
